@@ -1003,6 +1003,35 @@ func (c *Ctx) RuleBufwFlush() *Result {
 						continue
 					}
 					if reachesAvoidingSet(mk, call, flushes) {
+						// closing the sink without a flush is what a failed write is followed by: when every return
+						// behind such a Close reports an error, the truncated output is not passed off as success
+						if cf.Name() == "Close" {
+							if ci, isInstr := call.(ssa.Instruction); isInstr {
+								silent := false
+								c.explore(mk.Block(), instrIndex(mk)+1, newEnvAt(mk.Block()), exploreCB{
+									instr: func(in2 ssa.Instruction, e *pathEnv) bool {
+										if flushes[in2] {
+											return true
+										}
+										if in2 != ci {
+											return false
+										}
+										c.explore(in2.Block(), instrIndex(in2)+1, e.clone(), exploreCB{
+											ret: func(r *ssa.Return, e2 *pathEnv) {
+												op := retErrOperand(r)
+												if op == nil || !(errOperandAlwaysNonNil(op) || e2.nilnessOf(op) == nonNil || domFacts(r.Block())[op] == nonNil) {
+													silent = true
+												}
+											},
+										})
+										return true
+									},
+								})
+								if !silent {
+									continue
+								}
+							}
+						}
 						problems = append(problems, fmt.Sprintf("%s of the underlying sink at %s can run before the writer is flushed", cf.Name(), c.P.InstrPos(call)))
 					}
 				}
@@ -1105,6 +1134,16 @@ func (c *Ctx) RuleSearchResume() *Result {
 					case *ssa.BinOp:
 						switch x.Op {
 						case token.ADD, token.SUB, token.MUL:
+							// LastIndex(...) + 1: "after the previous separator, or at the very beginning" - the idiom relies
+							// on -1 + 1 being 0 and needs no test
+							if x.Op == token.ADD && v == ssa.Value(call) && strings.HasPrefix(f.Name(), "LastIndex") {
+								if k, ok := constInt(x.Y); ok && k == 1 && x.X == v {
+									break
+								}
+								if k, ok := constInt(x.X); ok && k == 1 && x.Y == v {
+									break
+								}
+							}
 							if !guarded(x, v) {
 								problems = append(problems, fmt.Sprintf("the result is used in arithmetic at %s without a test for -1 (nothing found)", c.P.InstrPos(x)))
 							}
